@@ -158,7 +158,7 @@ type SettingS struct {
 	Age    int    `json:"age"`
 	Born   int    `json:"born"` // creation instant in virtual seconds since the start of the harness process (the controller orders settings by it)
 	Status string `json:"status"`
-	Err    string `json:"err"` // "" | conflict | missing | other
+	Err    string `json:"err"` // "" | conflict | missing | selector | other
 }
 
 // PTmplS is the projection of a PodTemplate.
